@@ -21,7 +21,7 @@ def _work(modname, tname, prefixes, budget, seed):
         from .api import REGISTRY
         from .target import verify
         t = REGISTRY[tname]
-        return modname, tname, verify(t, seed=seed, prefixes=prefixes, budget=budget)
+        return modname, tname, verify(t, seed=seed, prefixes=prefixes, budget=budget, budget_s=3.0)
     except BaseException as e:  # checker crash -> reported, never a violation
         import traceback
         return modname, tname, {'crash': f'{type(e).__name__}: {e}', 'trace': traceback.format_exc()[-2000:]}
